@@ -251,6 +251,49 @@ fn perturb(r: &mut Rng, m: &mut Mor) -> &'static str {
 }
 
 impl C18 {
+    /// A node map of more than a thousand entries on discrete hypergraphs, asked about repeatedly while its table is
+    /// edited in place through the public fields (entry j := entry i, then restored), then dropped and rebuilt at the
+    /// same size: each answer must be the one for the table as it is at that moment.
+    fn large_map_history(&self, ctx: &mut Ctx, r: &mut Rng) {
+        ctx.class("large_node_map_history");
+        let n = r.range(1024, 1600);
+        let extra = r.below(5);
+        let hg = |w: Vec<u32>| POh::<u32, u64> { w, e: vec![], s: vec![], t: vec![] };
+        let (g, h) = (hg(vec![0; n]), hg(vec![0; n + extra]));
+        let mut w: Vec<usize> = r.perm(n + extra);
+        w.truncate(n);
+        let mut raw = HypergraphArrow { source: to_strict(&g).h, target: to_strict(&h).h, w: ff(w.clone(), n + extra), x: ff(vec![], 0) };
+        let mut edits: Vec<(usize, usize)> = vec![];
+        for step in 0..5 {
+            let mono = injective(&raw.w.table.0);
+            let input = || json!({"nodes": n, "codomain": n + extra, "edits_so_far(j := entry i)": edits, "step": step});
+            if let Some(b) = lib(ctx, "is_monomorphism(unchecked)", "large_node_map_history", &input, || raw.is_monomorphism()) {
+                ctx.check(b == mono, "is_monomorphism/both-maps-injective/value/large_node_map_history", || json!({"input": input(), "observed": b, "expected": mono}));
+            }
+            if step % 2 == 0 {
+                let i = r.below(n);
+                let j = (i + 1 + r.below(n - 1)) % n;
+                raw.w.table.0[j] = raw.w.table.0[i];
+                edits.push((i, j));
+            } else {
+                raw.w.table.0.copy_from_slice(&w);
+                edits.clear();
+            }
+        }
+        drop(raw);
+        for collide in [true, false, true] {
+            let mut w2 = w.clone();
+            if collide {
+                w2[n - 1] = w2[r.below(n - 1)];
+            }
+            let raw = HypergraphArrow { source: to_strict(&g).h, target: to_strict(&h).h, w: ff(w2.clone(), n + extra), x: ff(vec![], 0) };
+            let input = || json!({"nodes": n, "codomain": n + extra, "rebuilt": true, "last_entry_collides": collide});
+            if let Some(b) = lib(ctx, "is_monomorphism(unchecked)", "large_node_map_history", &input, || raw.is_monomorphism()) {
+                ctx.check(b == !collide, "is_monomorphism/both-maps-injective/value/large_node_map_history", || json!({"input": input(), "observed": b, "expected": !collide}));
+            }
+        }
+    }
+
     fn judge(&self, ctx: &mut Ctx, class: &str, m: &Mor) {
         let input = || json!({"source": show(&m.g), "target": show(&m.h), "w": m.w.0, "w_codomain": m.w.1, "x": m.x.0, "x_codomain": m.x.1});
         if m.h.e.len() >= 2 {
@@ -461,6 +504,10 @@ impl Monitor for C18 {
             let (class, m) = &c[idx as usize];
             ctx.class(class);
             self.judge(ctx, class, m);
+            return;
+        }
+        if r.chance(1, 1500) {
+            self.large_map_history(ctx, r);
             return;
         }
         let params = match r.below(4) {
